@@ -25,9 +25,6 @@ func genUpdateMisc(g *vlib.G) {
 					}
 				}
 			}
-			for _, f := range []float64{2, 0.5, 3} {
-				_ = f
-			}
 		}
 		// ExtendVecSym and boundary downdates on matrices whose factors are exact (identity, diagonal of
 		// perfect squares / powers of four) and on a generic SPD matrix
@@ -158,7 +155,7 @@ func symRankOneCase(t *vlib.T, n int, fam string, alpha float64, xrep, recvKind 
 		return
 	}
 	t.Outcome("applied")
-	checkCholAgainst(t, "SymRankOne", recv, A2, alpha == 0 && recvKind != "same")
+	checkCholAgainst(t, map[bool]string{true: "SymRankOne(alpha=0)", false: "SymRankOne"}[alpha == 0], recv, A2, alpha == 0 && recvKind != "same")
 }
 
 // checkCholAgainst compares a factorization object with the exactly known matrix.
@@ -184,7 +181,15 @@ func checkCholAgainst(t *vlib.T, what string, c *mat.Cholesky, A *M, condCopied 
 	inv, det, _ := invF64(A)
 	kappa := normInf(A) * normInf(inv)
 	cc, fc := c.Cond(), fresh.Cond()
-	if !(cc >= kappa/3 && cc <= 1.01*fn*kappa) {
+	// lower bound: only gross errors (see lowCond); sharpness comes from the exact comparison below
+	viaOK := true
+	if !condCopied && what != "Scale" && what != "SymRankOne(alpha=0)" {
+		// computed from the factor alone, exactly as SetFromU does for the same factor
+		var viaU mat.Cholesky
+		viaU.SetFromU(c.RawU())
+		viaOK = viaU.Cond() == cc
+	}
+	if !(cc >= kappa/100 && cc <= 1.01*fn*kappa) || !viaOK {
 		cls := ""
 		if (cc == 0 || math.IsInf(cc, 1)) && condCopied {
 			// stale value: 0 in a new receiver, +Inf in a Reset one
